@@ -54,13 +54,18 @@ func TestVerif_C11(t *testing.T) {
 	creds := []cred{{0, 0, false}, {1000, 1000, false}, {1000, 0, false}, {65534, 65534, false}, {0, 5, false}, {0, 0, true}}
 	idOpts := []int64{-1, -2, 0, 4242} // -1 unset, -2 caller's own
 	n := 0
-	for _, squash := range []string{"none", "root", "all", "", "Root", "ALL"} {
+	for _, squashCfg := range []string{"none", "root", "all", "", "Root", "ALL", "root+updates", "all+updates"} {
+		// "+updates": the same export after runtime updates whose option literals do not name Squash
+		squash := strings.TrimSuffix(squashCfg, "+updates")
 		fs := refs.New()
 		fs.PlantDir("/d", 0777, 0, 0)
 		srv, err := vfNewSrv(fs, ExportOptions{Squash: squash, AttrCacheTimeout: 1})
 		if err != nil {
 			rec.Infra(err.Error())
 			return
+		}
+		if squashCfg != squash {
+			rec.Set("updates_without_squash/"+squash, vfUpdatesWithoutSquash(srv.nfs))
 		}
 		root, _ := srv.client().mnt("/")
 		l, _ := srv.client().lookup(root, "d")
